@@ -311,6 +311,7 @@ class Contract:
         self.build = _fn(d.get('build'))
         self.perturb = _fn(d.get('perturb'))         # native: (params..., rng) in-place change of the receiver between an earlier call and the checked one
         self.sample = _fn(d.get('sample'))
+        self.fuzz_divisor = d.get('fuzz_divisor', 1)  # native evaluation that is slow by nature (scrypt): fewer evaluations per run
         self.prepare = _fn(d.get('prepare'))         # native: concrete params -> dict of params replaced by real objects           # native: rng -> dict of concrete params (optional)             # native: concrete params -> (callable, args, kwargs)
         self.observe = _fn(d.get('observe'))         # native: extracts comparable state after call
         self.modifies = d.get('modifies', ())
